@@ -109,6 +109,7 @@ var errFragments = []struct{ frag, class string }{
 	{"previous block id must be 32 bytes", "v-prev-len"},
 	{"generator address must be 20 bytes", "v-gen-len"},
 	{"block signature must not be empty", "v-sig-len"},
+	{"state root must be 32 bytes", "v-state-root-len"},
 	{"does not satisfy alphanumeric", "tx-static"},
 	{"params size", "tx-static"},
 	{"senderPublicKey must have length", "tx-static"},
